@@ -41,6 +41,8 @@ inductive WAct where
   | holdTimer             -- the hold timer becomes due
   | holdTimerKeepalive    -- the hold timer is due AND a KEEPALIVE is readable (timers are polled first)
   | kaTimer               -- the keepalive timer becomes due
+  | reset                 -- operator: hard ResetPeer (`force_down` with Cease/peer-deconfigured, BOTH roles)
+  | bfdDown               -- BFD session down (`force_down` with a silent close, BOTH roles)
   deriving DecidableEq, Repr, Inhabited
 
 /-- The FSM-level event an action amounts to. -/
@@ -56,6 +58,8 @@ def WAct.ev : WAct → Ev
   | .holdTimer => .input .holdTimer
   | .holdTimerKeepalive => .input .holdTimer
   | .kaTimer => .input .kaTimer
+  | .reset => .input .disconnected      -- per live role: the task ends outside the FSM, then
+  | .bfdDown => .input .disconnected    -- `apply_disconnect` feeds `Disconnected`
 
 inductive Frame where
   | open_
@@ -156,7 +160,29 @@ def wireStep (s : TState) (r : Role) (a : WAct) : TState × TObs :=
     (applyOuts r s1 outs, .step (.parseReject (3, 1) outs))
   else tstep s (.ev r a.ev)
 
+/-- NOTIFICATION a peer-level `force_down` makes every live session send before closing. -/
+def WAct.forceDown? : WAct → Option (Option Notif)
+  | .reset => some (some (6, 3))
+  | .bfdDown => some none
+  | _ => none
+
+/-- `force_down`: every live session of the peer is told to close through its close channel (so
+    the FSM is not asked); the task ends, and `apply_disconnect` frees the slot. -/
+def peerDown (s : TState) (n : Option Notif) : TState × WStep :=
+  let one (s : TState) (r : Role) : TState × List Frame :=
+    if (s.peer.connection r).isSome then
+      ((tstep s (.ev r (.input .disconnected))).1,
+       match n with | some n => [.notif n, .eof] | none => [.eof])
+    else (s, [])
+  let (s1, fa) := one s .active
+  let (s2, fp) := one s1 .passive
+  (s2, { kind := .step, toA := fa, toP := fp, stA := s2.peer.state .active, stP := s2.peer.state .passive,
+         tmA := tmFor s2 .active .active [], tmP := tmFor s2 .passive .passive [] })
+
 def wstep (s : TState) (r : Role) (a : WAct) : TState × WStep :=
+  match a.forceDown? with
+  | some n => peerDown s n
+  | none =>
   let live := (s.peer.connection r).isSome
   if a = .connect ∧ live then (s, idleStep .refused s)
   else if a ≠ .connect ∧ ¬ live then (s, idleStep .noConn s)
